@@ -28,7 +28,8 @@ class RaiseClause:
 
 class LoopSpec:
     def __init__(self, ordinal, index=None, invariants=None, modifies=None, variant=None,
-                 unroll=None):
+                 unroll=None, elem_ty=None):
+        self.elem_ty = elem_ty              # element type of a comprehension's result
         self.ordinal = ordinal
         self.index = index                  # name of ghost index for `for` loops
         self.invariants = invariants or []  # list[Clause]
@@ -91,10 +92,10 @@ class Contract:
         return self
 
     def loop(self, ordinal, index=None, invariants=None, modifies=None, variant=None,
-             unroll=None, props=None):
+             unroll=None, props=None, elem_ty=None):
         invs = [Clause(l, s, props or self.props) for l, s in (invariants or [])]
         self.loops[ordinal] = LoopSpec(ordinal, index, invs, list(modifies or []), variant,
-                                       unroll)
+                                       unroll, elem_ty)
         return self
 
     def note(self, text):
